@@ -24,6 +24,7 @@
 #define GHOST_C15_H
 
 #define GHOSTS_C15(X) \
+    X(size_t, g_ud_n) X(const void *, g_ud_cfg) X(int, g_ud_ctx) X(const void *, g_ud_in) X(const void *, g_ud_flags) X(const void *, g_ud_status) X(int, g_ud_rc) \
     X(size_t, g_fp_n) X(size_t, g_fp_last_start) X(size_t, g_fp_last_end) X(int, g_fp_last_c) X(int, g_fp_last_state) \
     X(size_t, g_fp_wit_start) X(size_t, g_fp_wit_end) X(int, g_fp_wit_c) X(int, g_fp_wit_state) \
     X(size_t, g_fp_wit_prev_end) X(int, g_fp_wit_prev_c) X(int, g_fp_state0) X(int, g_fp_bj) \
